@@ -241,11 +241,11 @@ theorem foldl_zeros : ∀ (l : List (Q × Q)) (a : Q × Q), (∀ x ∈ l, x = (0
     rw [foldl_cons, h x mem_cons_self, addQ2_zero_right]
     exact ih a (fun y hy => h y (mem_cons_of_mem _ hy))
 
-/-- Layer B2 (sum): one active lookup, all other emitted lookups leave the pair alone -/
-theorem applyKern_single (p : Program) (tag g1 g2 : String) (L : Lookup) (hL : L ∈ p.lookups)
-    (hnodup : (p.lookups.map (·.name)).Nodup) (hact : L.name ∈ activeLookups p tag)
-    (hzero : ∀ l ∈ p.lookups, l ≠ L → l.apply g1 g2 = (0, 0)) : applyKern p tag g1 g2 = L.apply g1 g2 := by
-  unfold applyKern
+/-- Layer B2 (sum): one lookup among the named ones, all other emitted lookups leave the pair alone -/
+theorem applyNames_single (p : Program) (names : List String) (g1 g2 : String) (L : Lookup) (hL : L ∈ p.lookups)
+    (hnodup : (p.lookups.map (·.name)).Nodup) (hact : L.name ∈ names)
+    (hzero : ∀ l ∈ p.lookups, l ≠ L → l.apply g1 g2 = (0, 0)) : applyNames p names g1 g2 = L.apply g1 g2 := by
+  unfold applyNames
   obtain ⟨as, bs, hsplit⟩ := append_of_mem hL
   have hnd : p.lookups.Nodup := by
     have := hnodup
@@ -259,7 +259,7 @@ theorem applyKern_single (p : Program) (tag g1 g2 : String) (L : Lookup) (hL : L
   have hLbs : L ∉ bs := by
     have := (nodup_append.mp hnd).2.1
     exact (nodup_cons.mp this).1
-  have hLact : (activeLookups p tag).contains L.name = true := by simpa using hact
+  have hLact : names.contains L.name = true := by simpa using hact
   rw [filter_append, filter_cons, hLact, if_pos rfl, map_append, map_cons, foldl_append, foldl_cons]
   rw [foldl_zeros _ (0, 0), addQ2_zero_left, foldl_zeros]
   · intro x hx
@@ -272,12 +272,116 @@ theorem applyKern_single (p : Program) (tag g1 g2 : String) (L : Lookup) (hL : L
     exact hzero l (mem_append_left _ hl') (fun e => hLas (e ▸ hl'))
 
 /-- Layer B2 (nothing applies): every emitted lookup leaves the pair alone -/
-theorem applyKern_none (p : Program) (tag g1 g2 : String) (hzero : ∀ l ∈ p.lookups, l.apply g1 g2 = (0, 0)) :
-    applyKern p tag g1 g2 = (0, 0) := by
-  unfold applyKern
+theorem applyNames_none (p : Program) (names : List String) (g1 g2 : String) (hzero : ∀ l ∈ p.lookups, l.apply g1 g2 = (0, 0)) :
+    applyNames p names g1 g2 = (0, 0) := by
+  unfold applyNames
   apply foldl_zeros
   intro x hx
   obtain ⟨l, hl, rfl⟩ := mem_map.mp hx
   exact hzero l (mem_filter.mp hl).1
+
+/-! ### languages -/
+
+/-- every registration lists the languages declared for its tag, default first -/
+theorem reg_languages (c : Ctx) (r : RegCtx) (isKern : Bool) (m : LookupMap) :
+    ∀ reg ∈ registerLookups c r isKern m, reg.languages = langsOf r reg.script := by
+  intro reg hreg
+  have hs : ∀ reg ∈ (refScripts r isKern m).flatMap (scriptRegs r m), reg.languages = langsOf r reg.script := by
+    intro reg h
+    obtain ⟨s, _, h⟩ := mem_flatMap.mp h
+    obtain ⟨tag, _, rfl⟩ := mem_map.mp h
+    rfl
+  cases isKern with
+  | false => rw [registerLookups_dist] at hreg; exact hs reg hreg
+  | true =>
+    rw [registerLookups_kern] at hreg
+    rcases mem_append.mp hreg with h | h
+    · split at h
+      · cases h
+      · simp only [mem_singleton] at h; subst h; rfl
+    · exact hs reg h
+
+theorem dflt_in_langsOf (r : RegCtx) (t : String) : "dflt" ∈ langsOf r t := by
+  unfold langsOf; exact mem_cons_self
+
+/-- a built registration under the tag that lists the language and references `n` makes `n` active for (tag, language) -/
+theorem activeLang_own (d : Declared) (p : Program) (tag lang n : String) (reg : Reg) (hreg : reg ∈ p.kern ++ p.dist)
+    (hs : reg.script = tag) (hl : lang ∈ reg.languages) (hn : n ∈ reg.lookups) (hb : p.built n = true) :
+    n ∈ activeLookupsLang d p tag lang := by
+  have hbuilt : reg ∈ p.regsBuilt := by
+    refine mem_filter.mpr ⟨hreg, ?_⟩
+    simp only [any_eq_true]
+    exact ⟨n, hn, hb⟩
+  have hown : reg ∈ p.regsBuilt.filter (fun r => r.script == tag) := mem_filter.mpr ⟨hbuilt, by simp [hs]⟩
+  have hwith : reg ∈ (p.regsBuilt.filter (fun r => r.script == tag)).filter (fun r => r.languages.contains lang) :=
+    mem_filter.mpr ⟨hown, by simpa using hl⟩
+  unfold activeLookupsLang
+  have h1 : (p.regsBuilt.filter (fun r => r.script == tag)).isEmpty = false := by
+    cases hh : p.regsBuilt.filter (fun r => r.script == tag) with
+    | nil => rw [hh] at hown; cases hown
+    | cons _ _ => rfl
+  rw [h1]
+  simp only [Bool.false_eq_true, if_false]
+  unfold langLookups
+  have h2 : ((p.regsBuilt.filter (fun r => r.script == tag)).filter (fun r => r.languages.contains lang)).isEmpty = false := by
+    cases hh : (p.regsBuilt.filter (fun r => r.script == tag)).filter (fun r => r.languages.contains lang) with
+    | nil => rw [hh] at hwith; cases hwith
+    | cons _ _ => rfl
+  simp only [h2, Bool.not_false, if_true]
+  exact mem_flatMap.mpr ⟨reg, hwith, hn⟩
+
+/-- a built lookup that EVERY registration references, when every registration under `tag` lists the language, `DFLT` is
+    registered with the default language, and other features declare neither the tag nor a `DFLT` LangSys of the language
+    that the `DFLT` registrations do not list: active for (tag, language) -/
+theorem activeLang_common (d : Declared) (p : Program) (tag lang n : String) (hall : ∀ reg ∈ p.kern ++ p.dist, n ∈ reg.lookups)
+    (hb : p.built n = true) (hd : ∃ reg ∈ p.kern ++ p.dist, reg.script = "DFLT" ∧ "dflt" ∈ reg.languages)
+    (hlangs : ∀ reg ∈ p.kern ++ p.dist, reg.script = tag → lang ∈ reg.languages)
+    (hdecl : d.tags.contains tag = false ∧
+      (d.langSys.contains ("DFLT", lang) = false ∨ ∀ reg ∈ p.kern ++ p.dist, reg.script = "DFLT" → lang ∈ reg.languages)) :
+    n ∈ activeLookupsLang d p tag lang := by
+  have builtOf : ∀ reg ∈ p.kern ++ p.dist, reg ∈ p.regsBuilt := by
+    intro reg hreg
+    refine mem_filter.mpr ⟨hreg, ?_⟩
+    simp only [any_eq_true]
+    exact ⟨n, hall reg hreg, hb⟩
+  unfold activeLookupsLang
+  cases hh : p.regsBuilt.filter (fun r => r.script == tag) with
+  | cons a t =>
+    simp only [isEmpty_cons, Bool.false_eq_true, if_false]
+    have ha : a ∈ p.regsBuilt.filter (fun r => r.script == tag) := by rw [hh]; exact mem_cons_self
+    have ha' : a ∈ p.kern ++ p.dist := (mem_filter.mp (mem_filter.mp ha).1).1
+    have has : a.script = tag := by simpa using (mem_filter.mp ha).2
+    exact activeLang_own d p tag lang n a ha' has (hlangs a ha' has) (hall a ha') hb |> fun h => by
+      unfold activeLookupsLang at h
+      rw [hh] at h
+      simpa using h
+  | nil =>
+    simp only [isEmpty_nil, if_true, hdecl.1, Bool.false_eq_true, if_false]
+    obtain ⟨reg, hreg, hs, hdf⟩ := hd
+    have hown : reg ∈ p.regsBuilt.filter (fun r => r.script == "DFLT") := mem_filter.mpr ⟨builtOf reg hreg, by simp [hs]⟩
+    unfold langLookups
+    cases hw : (p.regsBuilt.filter (fun r => r.script == "DFLT")).filter (fun r => r.languages.contains lang) with
+    | cons b t =>
+      dsimp only
+      rw [hw]
+      simp only [isEmpty_cons, Bool.not_false, if_true]
+      have hbm : b ∈ (p.regsBuilt.filter (fun r => r.script == "DFLT")).filter (fun r => r.languages.contains lang) := by
+        rw [hw]; exact mem_cons_self
+      have hb' : b ∈ p.kern ++ p.dist := (mem_filter.mp (mem_filter.mp (mem_filter.mp hbm).1).1).1
+      exact mem_flatMap.mpr ⟨b, mem_cons_self, hall b hb'⟩
+    | nil =>
+      dsimp only
+      rw [hw]
+      simp only [isEmpty_nil, Bool.not_true, Bool.false_eq_true, if_false]
+      have hnot : d.langSys.contains ("DFLT", lang) = false := by
+        rcases hdecl.2 with h | h
+        · exact h
+        · exfalso
+          have : reg ∈ (p.regsBuilt.filter (fun r => r.script == "DFLT")).filter (fun r => r.languages.contains lang) :=
+            mem_filter.mpr ⟨hown, by simpa using h reg hreg hs⟩
+          rw [hw] at this; cases this
+      rw [hnot]
+      simp only [Bool.false_eq_true, if_false]
+      exact mem_flatMap.mpr ⟨reg, mem_filter.mpr ⟨hown, contains_iff_mem.mpr hdf⟩, hall reg hreg⟩
 
 end Ufo2ft.C05
